@@ -280,6 +280,10 @@ func bytesValue(ctx context.Context, filename string, data []byte) (rel.Expr, er
 		return Compile(ctx, filename, string(data))
 	}
 	if filename != NoPath {
+		if importcache.IsImporting(ctx, filename) {
+			return nil, fmt.Errorf("import cycle: %s imports itself (possibly through other files)", filename)
+		}
+		ctx = importcache.WithImporting(ctx, filename)
 		return importcache.GetOrAddFromCache(ctx, filename, compile)
 	}
 	return compile()
